@@ -111,6 +111,11 @@ func buildFromDefinition(def *configDefinition, lc *loaderContext) (cfg *Config,
 		}
 	}
 
+	err = checkPipelineInclusion(def.Pipelines)
+	if err != nil {
+		return nil, err
+	}
+
 	// to allow pipeline-to-pipeline links
 	for k := range def.Pipelines {
 		cfg.Pipelines[k], err = scheduler.NewExecutionGraph()
